@@ -1,20 +1,45 @@
 import Driver.Object
+import Driver.Render
 
 /- Driver op "media": link selection of posts and actors and the hook argv (C20, C12). -/
 open Lean Drv
 
 namespace Ops
 
-def selJson (hook : List Str) (linksOnly : Bool := false) : Option Link.Sel → Json
+def selJson (hook : List Str) (linksOnly : Bool := false) (viaUi : Bool := false) : Option Link.Sel → Json
   | none => Json.mkObj [("present", Json.bool false)]
   | some s =>
-    if linksOnly then Json.mkObj [("present", Json.bool true), ("link", js s.link)] else
+    if linksOnly && !viaUi then Json.mkObj [("present", Json.bool true), ("link", js s.link)] else
     match Link.open_ hook s with
     | .error _ => panicJson
     | .ok c =>
+      -- through the UI only the started program is seen
+      if viaUi then Json.mkObj [("present", Json.bool true), ("argv", jsl c.argv), ("stdin", js (c.stdin.getD []))] else
       Json.mkObj [("present", Json.bool true), ("link", js s.link),
                   ("mt", Json.arr #[js s.mt.essence, js s.mt.supertype, js s.mt.subtype]),
                   ("argv", jsl c.argv), ("stdin", js (c.stdin.getD []))]
+
+/-- The links of a body as the renderer numbers them (`GetMarkup`'s second result), from what the
+    real parser made of the source. -/
+def bodyLinksOf (c : Colors) (b : Json) : Except String (List Str) := do
+  if let .ok (Json.arr forest) := b.getObjVal? "html" then
+    return (Hypertext.renderWithLinks c (← forest.toList.mapM toNode) 80).2
+  if let .ok (Json.arr lines) := b.getObjVal? "gem" then
+    return (Gemtext.renderWithLinks c (← lines.toList.mapM fun v => do pure (← v.getStr?).toList) 80).2
+  if let .ok (Json.str t) := b.getObjVal? "plain" then
+    return (Plaintext.renderWithLinks c t.toList 80).2
+  pure []
+
+/-- `strconv.Atoi` on a string of digits: the value, unless it does not fit an `int`. -/
+def atoiDigits (s : String) : Option Int :=
+  if s.isEmpty || !s.toList.all Char.isDigit then none
+  else
+    let v := s.toList.foldl (fun n d => 10 * n + (d.toNat - 48)) 0
+    if v < 2 ^ 63 then some (Int.ofNat v) else none
+
+/-- The values of the maximal superscript runs of every line. -/
+def lineRunValues (plain : Str) : List Nat :=
+  (Str.splitNL plain).flatMap fun l => (lineRuns l).map fun r => r.1.foldl (fun n d => 10 * n + d) 0
 
 def mediaOp (j : Json) : Except String Res := do
   let impl := (j.getObjVal? "impl").toOption.getD Json.null
@@ -26,7 +51,17 @@ def mediaOp (j : Json) : Except String Res := do
   let L ← libsOf j
   let hook ← strList j "hook"
   let as ← (← j.getObjVal? "as").getStr?
-  let bodyLinks : List Str := (strList j "bodylinks").toOption.getD []
+  let whole := (j.getObjVal? "whole").toOption == some (Json.bool true)
+  let viaUi := (j.getObjVal? "via").toOption == some (Json.str "ui")
+  let wrapped := match j.getObjVal? "wrap" with | .ok (Json.str w) => !w.isEmpty | _ => false
+  if let .ok _ := impl.getObjVal? "noitem" then
+    if wrapped then return { model := impl, nontrivial := false }
+  -- a whole item: the body links are worked out from the parsed body, not taken from the code
+  let bodyLinks : List Str ← if whole then
+      match j.getObjVal? "body" with
+      | .ok b => bodyLinksOf defaultColors b
+      | .error _ => pure []
+    else pure ((strList j "bodylinks").toOption.getD [])
   let stepsA ← arr j "steps"
   let kindOk : Bool := match Obj.getString o "type".toList with
     | .ok k => if as == "actor" then
@@ -40,12 +75,15 @@ def mediaOp (j : Json) : Except String Res := do
     let p ← st.getArr?
     let name ← (p[0]?.getD Json.null).getStr?
     let k : Int := ((p[1]?.getD Json.null).getInt?).toOption.getD 0
+    let typed : Option Int := match p[1]? with | some (Json.str d) => atoiDigits d | _ => none
     pure <| match name, as with
       | "media", "post" => Link.postMedia L kind o
-      | "pfp", "actor" => Link.actorPfp L o
-      | "banner", "actor" => Link.actorBanner L o
+      | "pfp", "actor" => if wrapped then none else Link.actorPfp L o
+      | "banner", "actor" => if wrapped then none else Link.actorBanner L o
       | "select", "actor" => Link.actorSelect bodyLinks k
       | "select", _ => Link.postSelect L bodyLinks o k
+      | "type", "actor" => typed.bind (Link.actorSelect bodyLinks)
+      | "type", _ => typed.bind (Link.postSelect L bodyLinks o)
       | _, _ => none
   -- predicates on the implementation's output
   let implSteps : List Json := match impl.getObjVal? "steps" with
@@ -65,10 +103,95 @@ def mediaOp (j : Json) : Except String Res := do
       | .error _ => false
     | _, _, _ => true
   -- a media type handed to the hook is the link's own, or the default of its kind, never another link's
+  -- whatever was selected: as many arguments as configured, the program and every argument that is
+  -- not exactly a placeholder untouched, the link on standard input iff no argument is %url
+  let placeholders : List Str := ["%url", "%mimetype", "%subtype", "%supertype"].map String.toList
+  let hasUrl := (hook.drop 1).contains "%url".toList
+  let shapeOk := implSteps.all fun r =>
+    match r.getObjVal? "argv", r.getObjVal? "stdin" with
+    | .ok (Json.arr a), .ok (Json.str sin) =>
+      let argv : List Str := a.toList.map fun v => match v with | Json.str s => s.toList | _ => []
+      argv.length == hook.length && argv.head? == hook.head? &&
+      ((hook.zip argv).drop 1).all (fun (h, x) => placeholders.contains h || h == x) &&
+      (!hasUrl || sin.isEmpty)
+    | _, _ => true
   let linksOnly := (j.getObjVal? "links_only").toOption == some (Json.bool true)
-  pure { model := Json.mkObj [("steps", Json.arr (sels.map (selJson hook linksOnly)).toArray)],
-         preds := if linksOnly then [("same_number_same_target", sameOk)]
-                  else [("same_opening_same_argv", sameOk), ("argv_is_substituted_hook", argvOk)],
+  let stepsJson := Json.arr (sels.map (selJson hook linksOnly viaUi)).toArray
+  let basePreds := if linksOnly then [("same_number_same_target", sameOk)]
+                  else [("same_opening_same_argv", sameOk), ("argv_is_substituted_hook", argvOk), ("argv_has_the_hooks_shape", shapeOk)]
+  if !whole then
+    return { model := Json.mkObj [("steps", stepsJson)], preds := basePreds, nontrivial := sels.any Option.isSome }
+  -- whole item: every number from 0 to two past the last one
+  let selOf (k : Int) : Option Link.Sel :=
+    if as == "actor" then Link.actorSelect bodyLinks k else Link.postSelect L bodyLinks o k
+  let implSel : List (Nat × Bool × Str) := match impl.getObjVal? "sel" with
+    | .ok (Json.arr a) => a.toList.filterMap fun e => match e with
+      | Json.arr q => match q[0]?, q[1]?, q[2]? with
+        | some k, some (Json.bool p), some (Json.str l) => (k.getNat?.toOption).map fun n => (n, p, l.toList)
+        | _, _, _ => none
+      | _ => none
+    | _ => []
+  let count := implSel.length
+  let modelSel := Json.arr ((List.range count).map fun k => match selOf (Int.ofNat k) with
+    | some s => Json.arr #[Json.num k, Json.bool true, js s.link]
+    | none => Json.arr #[Json.num k, Json.bool false, js []]).toArray
+  -- predicates on the implementation's output: the item's own text and its own answers
+  let texts : List Str := (strList j "texts").toOption.getD []
+  let widths : List Int := match j.getObjVal? "widths" with
+    | .ok (Json.arr a) => a.toList.filterMap (·.getInt?.toOption)
+    | _ => []
+  let labelsA := (j.getObjVal? "labels").toOption.bind (fun v => v.getArr?.toOption) |>.getD #[]
+  let labels : List (Str × Str) := labelsA.toList.filterMap fun p => match p with
+    | Json.arr q => match q[0]?, q[1]? with
+      | some (Json.str l), some (Json.str t) => some (l.toList, t.toList)
+      | _, _ => none
+    | _ => none
+  let intact := match j.getObjVal? "doclen", j.getObjVal? "doc" with
+    | .ok n, .ok (Json.str d) => n.getNat?.toOption == some d.length
+    | _, _ => false
+  let opens (k : Nat) (t : Str) : Bool := implSel.any fun (n, p, l) => n == k && p && l == t
+  -- the number printed after a label opens that label's own target (header, body and attachments together)
+  let labelOk := !intact || (texts.zip widths).all fun (txt, w) =>
+    w < 14 || (let plain := Safe.strip txt
+      labels.all fun (l, t) => match numberAfterBroken l plain with
+        | some k => opens k t
+        | none => true)
+  -- the numbers shown are exactly 1..N: N = body links + attachments
+  let checkNumbers := (j.getObjVal? "checknumbers").toOption == some (Json.bool true)
+  let total := count - 3
+  let numbersOk := !checkNumbers || !intact || (texts.zip widths).all fun (txt, w) =>
+    w < 5 || (let plain := Safe.strip txt
+      let shown := shownNumbers plain
+      (List.range total).all (fun i => shown.contains (i + 1)) && (lineRunValues plain).all (· ≤ total))
+  -- numbers outside 1..N open nothing
+  let outsideOk := implSel.all fun (n, p, _) => !(n < 1 || n > total) || !p
+  -- a number typed into the interface starts the program with what that number selects when asked directly
+  let urlAt : Option Nat := (hook.drop 1).findIdx? (· == "%url".toList) |>.map (· + 1)
+  let typedOk := !viaUi || (stepsA.toList.zip implSteps).all fun (d, r) =>
+    let v : Option Nat := match d with
+      | Json.arr p => match p[0]?, p[1]? with
+        | some (Json.str "select"), some n => n.getNat?.toOption
+        | some (Json.str "type"), some (Json.str ds) => (atoiDigits ds).map Int.toNat
+        | _, _ => none
+      | _ => none
+    match v with
+    | none => true
+    | some k =>
+      if k ≥ count then true else
+      let started : Option Str := match r.getObjVal? "argv", r.getObjVal? "stdin" with
+        | .ok (Json.arr a), .ok (Json.str sin) => match urlAt with
+          | some i => match a[i]? with | some (Json.str x) => some x.toList | _ => none
+          | none => some sin.toList
+        | _, _ => none
+      match started with
+      | some l => opens k l
+      | none => (r.getObjVal? "present").toOption != some (Json.bool false) || !(implSel.any fun (n, p, _) => n == k && p)
+  -- what the interface drew while opening
+  let frames : List Str := (strList j "frames").toOption.getD []
+  pure { model := Json.mkObj [("steps", stepsJson), ("bodylinks", jsl bodyLinks), ("sel", modelSel)],
+         preds := basePreds ++ [("label_opens_own_target", labelOk), ("numbers_1_to_N_shown", numbersOk),
+                                ("numbers_outside_open_nothing", outsideOk)] ++
+                  (if viaUi then [("frames_safe", frames.all Safe.safe), ("typed_number_opens_that_number", typedOk)] else []),
          nontrivial := sels.any Option.isSome }
 
 end Ops
